@@ -220,8 +220,57 @@ def sample_cases(ctx, stage, cases):
     return cases
 
 
+def merge_orders(fwd, rev, outdir):
+    """C11: the same groups were driven in forward and in reverse order (two processes per worker);
+    put both histories of a group next to each other so that the trace spec's group memory compares them"""
+    os.makedirs(outdir, exist_ok=True)
+    merged = []
+    for i, (fa, fb) in enumerate(zip(sorted(fwd), sorted(rev))):
+        groups = {}
+        order = []
+        for path in (fa, fb):
+            run2grp = {}
+            with open(path) as f:
+                for line in f:
+                    ev = json.loads(line)
+                    if ev.get("ev") == "Call":
+                        run2grp[ev["run"]] = ev["grp"]
+                    g = run2grp.get(ev.get("run"))
+                    if g not in groups:
+                        groups[g] = []
+                        order.append(g)
+                    groups[g].append(line)
+        mp = os.path.join(outdir, "both-%02d.ndjson" % i)
+        with open(mp, "w") as out:
+            for g in order:
+                out.writelines(groups[g])
+        merged.append(mp)
+    return merged
+
+
 def drive(ctx, stage, cases, tag):
     """run the real code on the cases -> trace shards"""
+    if stage.get("two_orders") and not ctx.get("_in_two_orders"):
+        ctx["_in_two_orders"] = True
+        try:
+            st1, cpath = drive(ctx, stage, cases, tag + "-fwd")
+            os.environ["VDRIVE_REVERSE"] = "1"
+            try:
+                st2, _ = drive(ctx, stage, cases, tag + "-rev")
+            finally:
+                del os.environ["VDRIVE_REVERSE"]
+        finally:
+            ctx["_in_two_orders"] = False
+        outdir = os.path.join(ctx["work"], tag + "-both-traces")
+        st = dict(st1)
+        st["shards"] = merge_orders(st1["shards"], st2["shards"], outdir)
+        for k in ("runs", "events", "panics", "hangs"):
+            st[k] = st1[k] + st2[k]
+        st["counter"] = {k: st1.get("counter", {}).get(k, 0) + st2.get("counter", {}).get(k, 0)
+                         for k in set(st1.get("counter", {})) | set(st2.get("counter", {}))}
+        shutil.rmtree(os.path.dirname(st1["shards"][0]), ignore_errors=True)
+        shutil.rmtree(os.path.dirname(st2["shards"][0]), ignore_errors=True)
+        return st, cpath
     cpath = os.path.join(ctx["work"], tag + "-cases.jsonl")
     with open(cpath, "w") as f:
         for c in cases:
